@@ -42,11 +42,52 @@ func (e *Eng) encodeFunction(fn *ssa.Function, con *Contract) (res *FnResult) {
 		res.NInst += len(b.Instrs)
 	}
 	f.ixWrap = con.EMatch
+	// source-order ordinals of the call sites of the function under contract
+	{
+		type site struct {
+			name string
+			pos  token.Pos
+		}
+		var sites []site
+		for _, b := range fn.Blocks {
+			for _, in := range b.Instrs {
+				ci, ok := in.(ssa.CallInstruction)
+				if !ok {
+					continue
+				}
+				cc := ci.Common()
+				name := ""
+				switch {
+				case cc.IsInvoke():
+					name = cc.Method.Name()
+				case cc.StaticCallee() != nil:
+					name = cc.StaticCallee().Name()
+				default:
+					continue
+				}
+				if cc.Pos().IsValid() {
+					sites = append(sites, site{name, cc.Pos()})
+				}
+			}
+		}
+		sort.Slice(sites, func(i, j int) bool { return sites[i].pos < sites[j].pos })
+		f.srcOrd = map[token.Pos]int{}
+		cnt := map[string]int{}
+		for _, s := range sites {
+			if _, dup := f.srcOrd[s.pos]; dup {
+				continue
+			}
+			cnt[s.name]++
+			f.srcOrd[s.pos] = cnt[s.name]
+		}
+	}
 	f.onWrite = func(w writeRec) {
 		w.Guard = f.curGuard
 		if w.Guard == "" {
 			w.Guard = "true"
 		}
+		w.Block = f.curBlock
+		w.Frame = f.curFrame
 		f.writes = append(f.writes, w)
 		f.writePos = append(f.writePos, f.curPos)
 	}
@@ -235,6 +276,7 @@ func (e *Eng) encodeFunction(fn *ssa.Function, con *Contract) (res *FnResult) {
 	if con.HasMod && !con.ModAll {
 		f.writeObligations(rs, res.Key)
 	}
+	f.loopWriteObligations(res.Key)
 	// canary: some return must be reachable (else the assumptions are
 	// contradictory and every obligation above is vacuous)
 	var gs []string
